@@ -16,7 +16,7 @@ checks = {
  "C01": g("Bounded symbolic model checking of each generated parser (default options): for every family grammar, every entry rule and every input up to N runes the verdict and the consumed prefix equal the reference PEG semantics. " + ORACLE +
           "Right level: restore/lookahead/range-bound mistakes only show on particular inputs, which are solver variables here; the grammar dimension cannot be symbolic because the generator emits text."),
  "C02": g("Differential bounded model checking: the parsers generated with -inline, -switch and -inline -switch are executed symbolically next to the default parser on the same symbolic input; verdict and full token list must agree on every path; a variant that does not generate or compile is a violation."),
- "C03": g("The real parser's Tokens() after every accepting path are compared element-wise (rule, begin, end in runes) with the post-order derivation of the reference semantics. " + ORACLE),
+ "C03": g("From every entry rule (Parse() and Parse(rule)), the real parser's Tokens() after every accepting path are compared element-wise (rule, begin, end in runes) with the post-order derivation of the reference semantics. " + ORACLE),
  "C04": g("Execute() of the real parser with probe actions is run symbolically; the recorded trace (action number, begin, end, text as a symbolic string) must equal the derivation's action list with the most recent preceding capture; a second Execute must repeat it."),
  "C05": g("AST() is walked (up/next) and compared with the tree defined directly from the token spans; SprintSyntaxTree output (fmt/strconv.Quote modelled, Quote uninterpreted) must equal the expected lines; AST/print must not disturb the tokens."),
  "C06": g("The same generated parser is run with and without DisableMemoize on the same symbolic input (fresh, and reused after a first input and Reset): verdict, tokens, printed tree and (on failure) the error token must agree, and agree with the reference; evidence counts paths on which the reference re-entered a (rule, offset) pair (memo hits)."),
